@@ -41,12 +41,12 @@ func (c cfg) String() string {
 }
 
 type op struct {
-	T   int64  `json:"t"`            // instant of the call on the virtual stopwatch
-	Op  string `json:"op"`           // try | reserve | tryreserve
-	N   int    `json:"n"`            // permits (1 uses the single-permit method when One is set)
+	T   int64  `json:"t"`             // instant of the call on the virtual stopwatch
+	Op  string `json:"op"`            // try | reserve | tryreserve
+	N   int    `json:"n"`             // permits (1 uses the single-permit method when One is set)
 	One bool   `json:"one,omitempty"` // use TryAcquirePermit / ReservePermit / TryReservePermit
-	MW  int64  `json:"mw,omitempty"` // max wait for tryreserve
-	Got int64  `json:"got"`          // observed: wait, or -1 refused (try: 0 granted, -1 refused)
+	MW  int64  `json:"mw,omitempty"`  // max wait for tryreserve
+	Got int64  `json:"got"`           // observed: wait, or -1 refused (try: 0 granted, -1 refused)
 	Adv string `json:"adv,omitempty"`
 }
 
